@@ -15,8 +15,9 @@ ORACLES = {
 RULE = ("Hypothesis draws est (1..5 mostly, up to 50), fpr from a short list, a hash strategy and 5-80 ops from {add new key, add "
         "duplicate, forced add, push (in 1/4 of the cases), reload via frombytes / export path / file object}. The driver asks "
         "check(key) just before each add, so 'effective' is what the structure itself reported. Exhaustive slice: est 1..3, every op "
-        "string of length <= L over {new, dup, forced, push, reload} (L=6 quick, 8 thorough). Non-trivial = crosses >= 1 growth "
-        "boundary and contains a duplicate or forced add; distinct by resolved history.")
+        "string of length <= L over {new, dup, forced, push, reload, stand-alone probe of a fresh key, dup / forced add issued WITHOUT a look-up right before it} (L=5 quick, 6 thorough). Non-trivial = crosses >= 1 growth "
+        "boundary and contains a duplicate or forced add; distinct by resolved history. Random histories also contain bulk additions of up "
+        "to est+6 new keys (est up to 300 quick / 2500 thorough, rates incl. 0.35 / 0.4) so large filters reach their boundary.")
 ASSUMPTIONS = ["per-filter counts are read from the export stream (u64 count | bits per filter, QQQf footer) by the harness' own parser"]
 MANIFEST = {
     "technique": "model-based property testing over add/push/reload histories + exhaustive short op strings; model of per-filter "
@@ -37,13 +38,13 @@ def strategy(tier):
 
 
 def exhaustive(tier):
-    L = 6 if tier == "quick" else 8
-    alphabet = [["new"], ["dup", 0], ["forced", 0], ["push"], ["reload", 0]]
+    L = 5 if tier == "quick" else 6
+    alphabet = [["new"], ["dup", 0], ["forced", 0], ["push"], ["reload", 0], ["probe", 0], ["dup", 0, True], ["forced", 1, True]]
 
     def gen():
         for est in (1, 2, 3):
             for n in range(1, L + 1):
-                for combo in itertools.product(range(5), repeat=n):
+                for combo in itertools.product(range(8), repeat=n):
                     yield {"rot": False, "est": est, "fpr": 0.01, "q": 1, "hash": "default",
                            "ops": [alphabet[c] for c in combo]}
 
